@@ -42,6 +42,7 @@ BigZs == {Pattern(n, p) : n \in {k \in BigN : k >= 1}, p \in (IF Quick THEN {"tw
 PolyAssign(n, name) == CASE name = "one" -> [i \in 1 .. n |-> 0]
                          [] name = "cycle" -> [i \in 1 .. n |-> (i - 1) % Len(PolyTab)]
                          [] name = "pair" -> [i \in 1 .. n |-> IF i % 2 = 0 THEN 1 ELSE 0]
+                         [] name = "zeros" -> [i \in 1 .. n |-> <<4, 0, 7, 5, 4>>[((i - 1) % 5) + 1]]     \* unit, random, sparse, const, unit: many zero evaluations with non-identity commitments
 Ops(zs, pa, share, repmode) ==
   [i \in 1 .. Len(zs) |->
      [p |-> pa[i], z |-> zs[i],
@@ -56,19 +57,25 @@ AllPerturb == << Pt("y", 0, "+1"), Pt("y", 1, "0"), Pt("y", 2, "other"), Pt("y",
                  Pt("a", 0, "+1"), Pt("a", 0, "0"), Pt("a", 0, "r-1"), Pt("a", 0, "rnd"),
                  Pt("swap", 0, ""), Pt("swap", 1, ""), Pt("drop", 0, ""), Pt("dup", 0, ""), Pt("label", 0, ""),
                  Pt("lenL", 0, "short"), Pt("lenL", 0, "long"), Pt("lenLR", 0, "short"), Pt("lenLR", 0, "long"), Pt("lenLR", 0, "empty"), Pt("lenR", 0, ""),
-                 Pt("lenC", 0, ""), Pt("lenY", 0, ""), Pt("lenZ", 0, ""), Pt("zero", 0, ""), Pt("splice", 0, "ipa"), Pt("splice", 0, "D") >>
+                 Pt("lenC", 0, ""), Pt("lenY", 0, ""), Pt("lenZ", 0, ""), Pt("zero", 0, ""), Pt("splice", 0, "ipa"), Pt("splice", 0, "D"),
+                 Pt("fake", 0, "zero"), Pt("fake", 1, "zero"), Pt("fake", 0, "other"), Pt("fake", 1, "atz") >>
 
 Labels == <<"multiproof", "test", "", "vt", "a-longer-protocol-label-0123456789">>
 MpShapes ==
   {<<zs, pa, sh, rm>> : zs \in SmallZs, pa \in (IF Quick THEN {"cycle"} ELSE {"one", "cycle"}), sh \in {FALSE}, rm \in {"norm"}}
   \cup {<<zs, "pair", TRUE, "mixed">> : zs \in {z \in SmallZs : Len(z) >= 2}}
   \cup {<<zs, "cycle", FALSE, "mixed2">> : zs \in {z \in SmallZs : Len(z) >= 3}}
+  \cup {<<zs, "zeros", FALSE, "norm">> : zs \in { <<3, 77>>, <<10, 10, 200>>, <<3, 77, 9, 200, 3>> }}
+  \* many openings: beyond 256 (more openings than domain points), beyond 512 and 1024 (thresholds of batching / buffering code)
+  \cup {<<Pattern(n, "spread"), "pair", TRUE, "norm">> : n \in (IF Quick THEN {520} ELSE {257, 520, 1030})}
   \cup {<<zs, pa, sh, "mixed">> : zs \in BigZs, pa \in {"cycle"}, sh \in (IF Quick THEN {TRUE} ELSE BOOLEAN)}
 CpuShapes == {<<Pattern(n, p), "cycle", TRUE, "mixed">> : n \in {k \in {NCpu - 1, NCpu, NCpu + 1, 2 * NCpu + 3} : k >= 1}, p \in {"cycle", "tail"}}
 PerturbShapes ==
   {<<zs, "cycle", FALSE, "mixed">> : zs \in (IF Quick THEN { <<255>>, <<0, 255>>, <<5, 200, 5>>, <<0, 1, 254, 255>>, <<200, 200>> } ELSE SmallZs)}
   \cup {<<zs, "pair", TRUE, "mixed2">> : zs \in (IF Quick THEN { <<5, 200, 5, 255, 0, 200, 77>> } ELSE {z \in SmallZs : Len(z) >= 3})}
   \cup {<<Pattern(n, "two"), "cycle", FALSE, "mixed">> : n \in (IF Quick THEN {2 * NCpu + 3} ELSE {NCpu + 1, 2 * NCpu + 3, 100})}
+  \* zero-valued openings of non-zero polynomials: alone at their index, sharing it with a non-zero value, sharing it with another zero
+  \cup {<<zs, "zeros", FALSE, "norm">> : zs \in { <<3, 77>>, <<10, 10, 200>>, <<3, 77, 9, 200, 3>> }}
 ArrivalShapes == {<<Pattern(n, p), "cycle", sh, "mixed">> : n \in {NCpu - 1, NCpu + 1, 2 * NCpu + 3}, p \in {"two", "blocks"}, sh \in {FALSE}}
 MpSeq == SetToSeq(IF Part = "mp_arrival" THEN ArrivalShapes ELSE IF Part = "mp_cpu" THEN CpuShapes ELSE IF Part = "mp_perturb" THEN PerturbShapes ELSE MpShapes)
 MpProgs == [k \in 1 .. Len(MpSeq) |->
